@@ -144,4 +144,179 @@ theorem tlv_pair_same (k : UInt8) (v : B) (w : Writer) :
 example : (Payload.tlv 4 [1, 2, 3]).writeTo [9, 9] = .ok (6, [9, 9, 4, 0, 3, 1, 2, 3]) := by decide
 example : (Payload.int 2 65534).toBytes = some [0xFF, 0xFE] := by decide
 
+/-! ### Signed integers and the type → width table (audit 3, X2) -/
+
+/-- Decoding a byte string as an unsigned big-endian number. -/
+def beVal (bs : B) : Nat := bs.foldl (fun a b => a * 256 + b.toNat) 0
+
+theorem twos_lt (w : Nat) (i : Int) : twos w i < 256 ^ w := by
+  have hpos : (0 : Int) < ((256 ^ w : Nat) : Int) := by exact_mod_cast Nat.pow_pos (by decide)
+  have h1 := Int.emod_nonneg i (Int.ne_of_gt hpos)
+  have h2 := Int.emod_lt_of_pos i hpos
+  unfold twos
+  omega
+
+/-- The two's-complement bit pattern, in closed form, of any `i` with `-256^w ≤ i < 256^w`. -/
+theorem twos_cast (w : Nat) (i : Int) (h : -((256 ^ w : Nat) : Int) ≤ i ∧ i < ((256 ^ w : Nat) : Int)) :
+    ((twos w i : Nat) : Int) = i + (if i < 0 then ((256 ^ w : Nat) : Int) else 0) := by
+  have hpos : (0 : Int) < ((256 ^ w : Nat) : Int) := by exact_mod_cast Nat.pow_pos (by decide)
+  unfold twos
+  generalize ((256 ^ w : Nat) : Int) = M at h hpos ⊢
+  have h1 := Int.emod_nonneg i (Int.ne_of_gt hpos)
+  rw [Int.toNat_of_nonneg h1]
+  by_cases hi : i < 0
+  · simp only [hi, if_true]
+    rw [← Int.add_emod_right, Int.emod_eq_of_lt (by omega) (by omega)]
+  · simp only [hi, if_false, Int.add_zero]
+    exact Int.emod_eq_of_lt (by omega) h.2
+
+/-- **C20 (two's complement, any width).** For a `w`-byte integer `i` — signed
+(`-256^w/2 ≤ i < 256^w/2`) or unsigned (`0 ≤ i < 256^w`); both are inside the
+stated range — the encoding of its bit pattern has `w` bytes and, read back as an
+unsigned big-endian number, minus `256^w` when `i` is negative, is `i`. -/
+theorem int_twos (w : Nat) (i : Int) (h : -((256 ^ w : Nat) : Int) ≤ i ∧ i < ((256 ^ w : Nat) : Int)) :
+    enc (.int w (twos w i)) = some (intBE w (twos w i)) ∧
+    (intBE w (twos w i)).length = w ∧
+    ((beVal (intBE w (twos w i)) : Nat) : Int) - (if i < 0 then ((256 ^ w : Nat) : Int) else 0) = i := by
+  obtain ⟨h1, h2, h3⟩ := int_big_endian w (twos w i)
+  refine ⟨h1, h2, ?_⟩
+  unfold beVal
+  rw [h3, Nat.mod_eq_of_lt (twos_lt w i), twos_cast w i h]
+  omega
+
+/-- The form suggested by the audit: signed range at width `w`. -/
+theorem int_signed_width (w : Nat) (i : Int)
+    (h : -(((256 ^ w / 2 : Nat)) : Int) ≤ i ∧ i < (((256 ^ w / 2 : Nat)) : Int)) :
+    let bs := intBE w (twos w i)
+    bs.length = w ∧
+    ((bs.foldl (fun a b => a * 256 + b.toNat) 0 : Nat) : Int) -
+      (if i < 0 then ((256 ^ w : Nat) : Int) else 0) = i := by
+  have := (int_twos w i (by omega)).2
+  exact this
+
+theorem inRange_bounds (t : IntTy) (i : Int) (h : t.inRange i = true) :
+    -((256 ^ t.width : Nat) : Int) ≤ i ∧ i < ((256 ^ t.width : Nat) : Int) := by
+  unfold IntTy.inRange at h
+  split at h
+  · have := of_decide_eq_true h; omega
+  · have := of_decide_eq_true h; omega
+
+/-- An unsigned type holds no negative value; a signed one holds `T::MIN = -256^w/2`
+up to `T::MAX = 256^w/2 - 1`. -/
+theorem inRange_iff (t : IntTy) (i : Int) :
+    t.inRange i = true ↔
+      if t.signed then -(((256 ^ t.width / 2 : Nat)) : Int) ≤ i ∧ i < (((256 ^ t.width / 2 : Nat)) : Int)
+      else 0 ≤ i ∧ i < ((256 ^ t.width : Nat) : Int) := by
+  unfold IntTy.inRange
+  cases t.signed <;> simp
+
+/-- **C20 (integers: all widths and signs).** For every integer type that
+implements `WriteToHeader` and every value `i` of that type (`T::MIN ≤ i ≤ T::MAX`),
+the payload `Payload.ofInt t i` is encoded — by `write_to`/`to_bytes` and by the
+specification — as exactly `t.width` bytes (1, 2, 4, 8, 16; `usize`/`isize` = 8,
+assumption A4), big-endian two's complement: read back as an unsigned big-endian
+number, minus `256^width` when `i` is negative, the bytes give `i`. -/
+theorem int_signed (t : IntTy) (i : Int) (h : t.inRange i = true) :
+    ∃ bs, enc (Payload.ofInt t i) = some bs ∧ (Payload.ofInt t i).toBytes = some bs ∧
+      (Payload.ofInt t i).size = t.width ∧ bs.length = t.width ∧
+      ((beVal bs : Nat) : Int) - (if i < 0 then ((256 ^ t.width : Nat) : Int) else 0) = i := by
+  obtain ⟨h1, h2, h3⟩ := int_twos t.width i (inRange_bounds t i h)
+  exact ⟨_, h1, by rw [to_bytes]; exact h1, rfl, h2, h3⟩
+
+/-- … and written into any writer with room for it, it appends those bytes and reports the width. -/
+theorem int_signed_write (t : IntTy) (i : Int) (w : Writer) (hfit : w.length + t.width ≤ 65535 + 16) :
+    (Payload.ofInt t i).writeTo w = .ok (t.width, w ++ intBE t.width (twos t.width i)) := by
+  have hl : (intBE t.width (twos t.width i)).length = t.width := (int_big_endian _ _).2.1
+  have := success_below_limit (Payload.ofInt t i) w _ rfl (by rw [hl]; exact hfit)
+  rw [hl] at this; exact this
+
+/-- The width table, spelled out. -/
+theorem width_table :
+    IntTy.u8.width = 1 ∧ IntTy.u16.width = 2 ∧ IntTy.u32.width = 4 ∧ IntTy.u64.width = 8 ∧
+    IntTy.u128.width = 16 ∧ IntTy.usize.width = 8 ∧ IntTy.i8.width = 1 ∧ IntTy.i16.width = 2 ∧
+    IntTy.i32.width = 4 ∧ IntTy.i64.width = 8 ∧ IntTy.i128.width = 16 ∧ IntTy.isize.width = 8 :=
+  ⟨rfl, rfl, rfl, rfl, rfl, rfl, rfl, rfl, rfl, rfl, rfl, rfl⟩
+
+/-- Non-vacuity: min / max / -1 of signed types, max of unsigned types are in range and encode as expected. -/
+example : IntTy.i16.inRange (-2) = true ∧ (Payload.ofInt .i16 (-2)).toBytes = some [0xFF, 0xFE] := by decide
+example : IntTy.i8.inRange (-128) = true ∧ IntTy.i8.inRange 127 = true ∧ IntTy.i8.inRange 128 = false ∧
+    IntTy.i8.inRange (-129) = false ∧ IntTy.u8.inRange (-1) = false ∧ IntTy.u8.inRange 255 = true := by decide
+example : (Payload.ofInt .i8 (-128)).toBytes = some [0x80] ∧ (Payload.ofInt .i8 127).toBytes = some [0x7F] ∧
+    (Payload.ofInt .i32 (-1)).toBytes = some [0xFF, 0xFF, 0xFF, 0xFF] ∧
+    (Payload.ofInt .u16 65535).toBytes = some [0xFF, 0xFF] := by decide
+example : IntTy.i64.inRange (-9223372036854775808) = true ∧
+    (Payload.ofInt .i64 (-9223372036854775808)).toBytes = some [0x80, 0, 0, 0, 0, 0, 0, 0] ∧
+    IntTy.isize.inRange 9223372036854775807 = true ∧
+    (Payload.ofInt .isize 9223372036854775807).toBytes =
+      some [0x7F, 0xFF, 0xFF, 0xFF, 0xFF, 0xFF, 0xFF, 0xFF] := by decide +kernel
+example : IntTy.i128.inRange (-170141183460469231731687303715884105728) = true ∧
+    (Payload.ofInt .i128 (-170141183460469231731687303715884105728)).toBytes =
+      some [0x80, 0, 0, 0, 0, 0, 0, 0, 0, 0, 0, 0, 0, 0, 0, 0] ∧
+    IntTy.u128.inRange 340282366920938463463374607431768211455 = true ∧
+    IntTy.u128.inRange 340282366920938463463374607431768211456 = false := by decide +kernel
+
+/-! ### What a failed write leaves behind, exactly (audit 3, C20 (a)) -/
+
+theorem writeChunksE_error_exact (w : Writer) (cs : List B) (w' : Writer)
+    (h : Writer.writeChunksE w cs = .error w') :
+    ∃ k, k < cs.length ∧ w' = w ++ (cs.take k).flatten ∧ cs[k]! ≠ [] ∧ writerLimit < w'.length ∧
+      guardOk w (cs.take k) := by
+  induction cs generalizing w with
+  | nil => simp [Writer.writeChunksE] at h
+  | cons c cs ih =>
+    simp only [Writer.writeChunksE] at h
+    cases hw : Writer.writeAll w c with
+    | none =>
+      rw [hw] at h
+      have hww : w' = w := by injection h with h; exact h.symm
+      subst hww
+      obtain ⟨h1, h2⟩ := (writeAll_none_iff w' c).mp hw
+      exact ⟨0, by simp, by simp, by simpa using h1, h2, trivial⟩
+    | some w1 =>
+      rw [hw] at h
+      obtain ⟨hg, rfl⟩ := (writeAll_some_iff w c w1).mp hw
+      obtain ⟨k, hk, rfl, h3, h4, h5⟩ := ih _ h
+      refine ⟨k + 1, by simpa using hk, by simp, ?_, h4, ?_⟩
+      · simpa using h3
+      · simp only [List.take_succ_cons, guardOk]; exact ⟨hg, h5⟩
+
+/-- **C20 (partial writes, exactly).** A failed `write_to` leaves the writer with
+its old content followed by exactly the chunks before the first non-empty chunk
+at whose start the buffer already exceeded the limit — or untouched when the
+value is refused up front. (For a TLV: nothing, the type byte, or type and
+length; never part of a chunk.) -/
+theorem partial_write_exact (p : Payload) (w w' : Writer) (h : p.writeTo w = .error w') :
+    (p.chunks = none ∧ w' = w) ∨
+    ∃ cs k, p.chunks = some cs ∧ k < cs.length ∧ w' = w ++ (cs.take k).flatten ∧
+      cs[k]! ≠ [] ∧ writerLimit < w'.length ∧ guardOk w (cs.take k) := by
+  by_cases hp : ∃ t, p = .type t
+  · obtain ⟨t, rfl⟩ := hp
+    right
+    simp only [Payload.writeTo, Writer.write] at h
+    by_cases hg : w.length > writerLimit
+    · simp only [hg, if_true] at h
+      have hww : w' = w := by injection h with h; exact h.symm
+      subst hww
+      exact ⟨[[t.code]], 0, rfl, by simp, by simp, by simp, hg, trivial⟩
+    · simp only [hg, if_false] at h
+      cases h
+  · have hp' : ∀ t, p ≠ .type t := fun t h => hp ⟨t, h⟩
+    rw [writeTo_nontype p w hp'] at h
+    cases hcs : p.chunks with
+    | none => rw [hcs] at h; cases h; exact .inl ⟨rfl, rfl⟩
+    | some cs =>
+      rw [hcs] at h
+      simp only at h
+      cases hw : Writer.writeChunksE w cs with
+      | error e =>
+        rw [hw] at h; cases h
+        obtain ⟨k, hk⟩ := writeChunksE_error_exact w cs _ hw
+        exact .inr ⟨cs, k, rfl, hk⟩
+      | ok w1 => rw [hw] at h; cases h
+
+/-- Non-vacuity: at 65551 bytes a TLV's type byte is written and its length refused (`k = 1`). -/
+example (w : Writer) (hw : w.length = 65551) : (Payload.tlv 4 []).writeTo w = .error (w ++ [4]) := by
+  simp [Payload.writeTo, Payload.chunks, Writer.writeChunksE, Writer.writeAll, Writer.write,
+    writerLimit, minLen, hw, be16Bytes]
+
 end C20
